@@ -2,4 +2,8 @@
 open Model
 let table : (string * ((val0 -> val0) * (val0 -> val0 -> bool))) list = [
   "fields", (run_fields, holds_fields);
+  "finite", (run_finite, holds_finite);
+  "finite_slots", (run_finite, holds_finite_slots);
+  "valid", (run_valid, holds_valid);
+  "valid_slots", (run_valid, holds_valid_slots);
 ]
